@@ -208,12 +208,15 @@ def script_text(spec: Spec, variant: int, dofile: str, gates: bool = False) -> s
     elif deps:
         if spec.split:
             for d in deps:
+                if spec.noise == 512:
+                    # a partial line in front of EVERY nested build: from the second on, other targets' lines lie in between
+                    L.append('printf "L $1 7 building %s: " >&2' % d)
                 L.append(ifchange([d]))
                 kp()
         else:
             L.append(ifchange(deps))
             kp()
-        if spec.noise in (8, 64):
+        if spec.noise in (8, 64, 512):
             L.append('echo "done" >&2')     # ends the partial line if nothing was written in between
         for d in deps:
             L.append(f'c="$c$(cat "{d}")"')
